@@ -4201,6 +4201,10 @@ class TLSConnection(TLSRecordLayer):
                 self._pre_client_hello_handshake_hash = \
                     self._handshake_hash.copy()
 
+                # the second ClientHello is not a protected record, so the
+                # negotiated record_size_limit does not apply to it
+                recv_record_limit = self._recv_record_limit
+                self._recv_record_limit = 2**14
                 for result in self._getMsg(ContentType.handshake,
                                            HandshakeType.client_hello):
                     if result in (0, 1):
@@ -4208,6 +4212,7 @@ class TLSConnection(TLSRecordLayer):
                     else:
                         break
                 clientHello = result
+                self._recv_record_limit = recv_record_limit
 
                 # verify that the new key share is present
                 ext = clientHello.getExtension(ExtensionType.key_share)
